@@ -172,12 +172,12 @@ def _find_terminal_instruction(snapshot, ctls, start, end, rst_handler, ctl=None
     address = start
     while address < end:
         i_addr, size, max_count, op_id = next(decode(snapshot, address, address + 1, rst_handler))[:4]
-        if ctl is None and i_addr + size > limit:
+        if ctl != 'c' and i_addr + size > limit:
             # This instruction is cut off by the end address, so the code
             # stops before it
             if i_addr == start or i_addr in ctls:
                 return end
-            ctls[i_addr] = next_ctl
+            ctls[i_addr] = ctl or next_ctl
             return i_addr
         address += size
         if ctl is None:
